@@ -32,3 +32,109 @@ func (verifOpaqueJSON) Unmarshal(data []byte, v any) error {
 
 func (verifOpaqueJSON) NewEncoder(w io.Writer) serializer.JSONEncoder { return nil }
 func (verifOpaqueJSON) NewDecoder(r io.Reader) serializer.JSONDecoder { return nil }
+
+// ---- JSON string-literal model (validated natively against encoding/json by verifST_jsonmodel) ----
+
+// verifAlpha is the alphabet of the model: printable ASCII except the three characters Go's encoder HTML-escapes.
+func verifAlpha(c byte) bool {
+	return c >= 0x20 && c < 0x7f && c != '<' && c != '>' && c != '&'
+}
+
+// verifEscape renders s as a JSON string literal the way encoding/json does on the alphabet.
+func verifEscape(s string) []byte {
+	out := []byte{'"'}
+	for i := 0; i < len(s); i++ {
+		c := s[i]
+		if c == '"' || c == '\\' {
+			out = append(out, '\\')
+		}
+		out = append(out, c)
+	}
+	return append(out, '"')
+}
+
+// verifParseStrings parses a JSON array of string literals (`["a","b"]`) over the alphabet; ok=false where
+// encoding/json would fail.
+func verifParseStrings(data []byte) (out []string, ok bool) {
+	n := len(data)
+	if n < 2 || data[0] != '[' || data[n-1] != ']' {
+		return nil, false
+	}
+	i := 1
+	if i == n-1 {
+		return []string{}, true
+	}
+	for {
+		if i >= n-1 || data[i] != '"' {
+			return nil, false
+		}
+		i++
+		var cur []byte
+		closed := false
+		for i < n-1 {
+			c := data[i]
+			if c == '\\' {
+				if i+1 >= n-1 {
+					return nil, false
+				}
+				e := data[i+1]
+				if e != '"' && e != '\\' && e != '/' {
+					return nil, false // other escapes (\n, \u....) are outside the model's alphabet
+				}
+				cur = append(cur, e)
+				i += 2
+				continue
+			}
+			if c == '"' {
+				closed = true
+				i++
+				break
+			}
+			cur = append(cur, c)
+			i++
+		}
+		if !closed {
+			return nil, false
+		}
+		out = append(out, string(cur))
+		if i == n-1 {
+			return out, true
+		}
+		if data[i] != ',' {
+			return nil, false
+		}
+		i++
+	}
+}
+
+// verifModelJSON is a serializer whose encoder writes a prepared JSON text (plus the newline json.Encoder adds) and
+// whose Unmarshal understands arrays of string literals (what parseHeader asks for).
+type verifModelJSON struct{ text []byte }
+
+func (j *verifModelJSON) Marshal(v any) ([]byte, error) { return j.text, nil }
+func (j *verifModelJSON) Unmarshal(data []byte, v any) error {
+	p, isStrings := v.(*[]string)
+	if !isStrings {
+		return nil
+	}
+	out, ok := verifParseStrings(data)
+	if !ok {
+		return errVerifJSON
+	}
+	*p = out
+	return nil
+}
+
+type verifModelEncoder struct {
+	w    io.Writer
+	text []byte
+}
+
+func (e *verifModelEncoder) Encode(v any) error {
+	_, err := e.w.Write(append(append([]byte(nil), e.text...), '\n'))
+	return err
+}
+func (j *verifModelJSON) NewEncoder(w io.Writer) serializer.JSONEncoder {
+	return &verifModelEncoder{w: w, text: j.text}
+}
+func (j *verifModelJSON) NewDecoder(r io.Reader) serializer.JSONDecoder { return nil }
